@@ -35,17 +35,24 @@ func init() {
 	})
 }
 
-// RootValue wraps the top value of a decode tree (always a struct or an
-// array) as the jq value fq's own decode function returns for it.
-func RootValue(top *decode.Value) (any, error) {
-	c, ok := top.V.(*decode.Compound)
-	if !ok {
-		return nil, fmt.Errorf("top value is not a compound (%T)", top.V)
+// RootHolder returns a jq value h such that `h[0]` is the top value of the
+// decode tree as the jq decode value fq's own decode function returns for it.
+//
+// Only the constructors for compound decode values are exported by
+// pkg/interp.  A struct or array top value is wrapped directly; a scalar top
+// value (formats like bytes, json, xml) is reached through a throw-away array
+// value that merely lists it as its child: fq builds the jq value of a child
+// itself.  The top value is not modified (its Parent stays nil).
+func RootHolder(top *decode.Value) any {
+	if c, ok := top.V.(*decode.Compound); ok {
+		if c.IsArray {
+			return []any{interp.NewArrayDecodeValue(top, nil, c)}
+		}
+		return []any{interp.NewStructDecodeValue(top, nil, c)}
 	}
-	if c.IsArray {
-		return interp.NewArrayDecodeValue(top, nil, c), nil
-	}
-	return interp.NewStructDecodeValue(top, nil, c), nil
+	hc := &decode.Compound{IsArray: true, Children: []*decode.Value{top}}
+	holder := &decode.Value{V: hc, Name: "verif_holder", RootReader: top.RootReader, Range: top.Range, IsRoot: true, Index: -1}
+	return interp.NewArrayDecodeValue(holder, nil, hc)
 }
 
 // PathOf is the jq path of a node as the harness derives it from its own
